@@ -36,6 +36,7 @@ def shards(tier, seed):
         out.append(("history_%d" % i, dict(kind="history", count=60 if q else 600)))
     out.append(("toy", dict(kind="toy", ncurves=3 if q else 10)))
     out.append(("infinity", dict(kind="infinity")))
+    out.append(("same_field", dict(kind="same_field", count=6 if q else 60)))
     # the same with assert statements stripped (python -O)
     out.append(("child_pairs_NIST256p", dict(kind="pairs", cname="NIST256p", npairs=3, lz=False, _pyopt="opt")))
     out.append(("child_pairs_SECP112r2", dict(kind="pairs", cname="SECP112r2", npairs=3, lz=False, _pyopt="opt+hashseed")))
@@ -517,6 +518,62 @@ def run(ctx, name, kind, **kw):
                     lzc = dom.pbytes() - (want.bit_length() + 7) // 8
                     secret_of(ctx, e, want, "exchange.leading_zero" if lzc > 0 else "exchange", "%s|%d" % (curve.name, (dA * dB) % 40), "%s dA=%d dB=%d" % (curve.name, dA, dB), curve)
             ctx.nontrivial.add("toy.exhaustive|" + curve.name)
+    elif kind == "same_field":
+        # the SAME bytes offered, one after the other, to ECDH objects on two curves over one field prime (SECP112r1 / SECP112r2 among the
+        # shipped curves; a named curve and a user-defined curve over its prime): what one object accepted says nothing about the other -
+        # each load is decided by the validator for THAT curve, in both orders, and a secret is only derived from an accepted key
+        from vf.ref import sec1 as _s1
+        from vf.ref.ecdsa_ref import Domain
+        from ecdsa import curves as _cu
+        c1, c2 = lib.BY_NAME["SECP112r1"], lib.BY_NAME["SECP112r2"]
+        pairs = [(c1, lib.dom_of(c1), c2, lib.dom_of(c2))]
+        cn = lib.BY_NAME["NIST192p"]
+        dn = lib.dom_of(cn)
+        from vf import toy as _toy
+        # a user-defined curve over NIST192p's prime: same a, another b (its order is unknown: the curve is only used to REFUSE keys and as a
+        # source of points that are valid elsewhere, so the named curve is the one whose validator decides)
+        for ca, da, cb, db in list(pairs) + [(b_, db_, a_, da_) for a_, da_, b_, db_ in pairs]:
+            for _ in range(kw["count"]):
+                k_ = rng.randrange(2, da.n)
+                P_ = da.curve.mul(k_, da.G)
+                for enc in ("raw", "uncompressed", "hybrid", "compressed"):
+                    data = _s1.encode_point(da, P_, enc)
+                    outcomes = []
+                    for cc, dd in ((ca, da), (cb, db), (ca, da), (cb, db)):
+                        tt_ = False
+                        try:
+                            _s1.decode_point(dd, data)
+                            want = "accept"
+                        except _s1.Invalid as iv_:
+                            want = "reject"
+                            if str(iv_.args[0] if iv_.args else "") == "subgroup":
+                                # the known finding R4: a point outside the subgroup whose multiple [n]P is a point with y = 0
+                                L_ = dd.pbytes()
+                                if len(data) == L_ + 1:
+                                    x_ = int.from_bytes(data[1:], "big")
+                                    r_ = __import__("vf.ref.nt", fromlist=["x"]).sqrt_mod(dd.curve.rhs(x_), dd.curve.p)
+                                    Pt_ = (x_, r_ if (r_ & 1) == (data[0] & 1) else dd.curve.p - r_)
+                                else:
+                                    Pt_ = (int.from_bytes(data[-2 * L_:-L_], "big"), int.from_bytes(data[-L_:], "big"))
+                                T_ = dd.curve.mul(dd.n, Pt_)
+                                tt_ = T_ is not None and T_[1] == 0
+                        e_ = ECDH(cc)
+                        e_.generate_private_key()
+                        try:
+                            e_.load_received_public_key_bytes(data)
+                            got = "accept"
+                        except MalformedPointError:
+                            got = "reject"
+                        except Exception as ex:
+                            got = "raised %s: %s" % (type(ex).__name__, ex)
+                        outcomes.append((cc.name, want, got))
+                        ctx.case("same_field", key="%s|%s|%s" % (cc.name, enc, want))
+                        if got != want:
+                            ctx.violation(KF_2T if (tt_ and got == "accept") else "remote_key_acceptance_depends_on_earlier_loads" if got in ("accept", "reject") else "loader_raises_undocumented", "%s key of %s (%s) offered to ECDH objects on %s: validator / library per load: %r" % (enc, ca.name, data.hex(), [o[0] for o in outcomes], outcomes), dict(data=data, curves=[ca.name, cb.name], outcomes=outcomes))
+                            if not (tt_ and got == "accept"):
+                                break
+                        if got == "reject":
+                            secret_of(ctx, e_, "NoKeyError", "same_field", cc.name + "|refused", "%s: after the refused %s key of %s" % (cc.name, enc, ca.name))
     elif kind == "infinity":
         # a remote key object (no validation on the object path) whose point is annihilated by the local scalar:
         # on a toy curve with cofactor, remote point of small order h and local scalar multiple of h
